@@ -165,14 +165,18 @@ def main(argv=None):
 
     # ---- classify
     discharged, open_, violations, known_reported, undecided, bounded = [], [], [], [], [], []
+    soft = set()      # proved this run, but the contract allows a bounded fallback: not part of the hard ledger
     for full, o in sorted(obligations.items()):
         if not o['open']:
-            if o.get('bounded') or ex.contracts[o['contract']].opts.get('bounded'):
+            copts = ex.contracts[o['contract']].opts
+            if o.get('bounded') or copts.get('bounded'):
                 bounded.append({'obligation': full, 'bounded_path_queries': o.get('bounded', 0), 'path_queries': o['paths'],
-                                'bound': (ex.contracts[o['contract']].opts.get('bounded')),
+                                'bound': (copts.get('bounded') or copts.get('bounded_fallback')),
                                 'tool': 'z3, pow2/bit_length interpreted, all exponents and widths inside the box'})
             else:
                 discharged.append(full)
+                if copts.get('bounded_fallback'):
+                    soft.add(full)
             continue
         open_.append(full)
         confirmed = []
@@ -209,8 +213,8 @@ def main(argv=None):
             undecided.append(full)
 
     if a.update_baseline:
-        ledger_all[prop] = sorted(discharged)
-        ledger_all[prop + ':bounded'] = sorted(b['obligation'] for b in bounded)
+        ledger_all[prop] = sorted(d for d in discharged if d not in soft)
+        ledger_all[prop + ':bounded'] = sorted([b['obligation'] for b in bounded] + list(soft))
         with open(os.path.join(ROOT, 'baseline_obligations.json'), 'w') as f:
             json.dump(ledger_all, f, indent=1, sort_keys=True)
         print(f'baseline for {prop}: {len(discharged)} obligations')
@@ -230,7 +234,7 @@ def main(argv=None):
     # obligations that vanished (a function lost its paths / contract clause renamed) are undecided, not passes
 
     # ---- evidence
-    n_obl = len([o for o in obligations if o in ledger]) if ledger else len(obligations)
+    n_obl = len([o for o in obligations if o in ledger]) if ledger else len(discharged)
     n_dis = len([o for o in discharged if o in ledger]) if ledger else len(discharged)
     samples = []
     for full in (discharged[:3] + open_[:2]):
